@@ -27,6 +27,7 @@ type Prop struct {
 	Meta        string   `json:"meta"`
 	Bounded     []string `json:"bounded"`
 	MaxPaths    int      `json:"max_paths"`
+	Stream      bool     `json:"stream,omitempty"` // model reader contents as a byte stream (exact consumption, C16)
 }
 
 type Side struct {
@@ -132,7 +133,7 @@ func runCheck(args []string) int {
 		return rp
 	}
 
-	e, err := eng.Load(repo, p.Packages, eng.Options{MaxPaths: p.MaxPaths})
+	e, err := eng.Load(repo, p.Packages, eng.Options{MaxPaths: p.MaxPaths, StreamModel: p.Stream})
 	if err != nil {
 		rp := fail(p.ID+"#load", "the repository does not load/type-check with the contracts", err.Error())
 		fmt.Printf("VIOLATION property=%s replay=%s no-failing-input-found\n", p.ID, rp)
